@@ -31,10 +31,16 @@ def _expand_chunk(args):
 
 
 def explore(expand, roots, max_depth, part, root_key=None, chunk=None, cap_states=None,
-            time_budget=None, label='bfs'):
+            time_budget=None, label='bfs', nomerge_depth=1):
     """Run BFS. roots: list of histories (tuples) to start from (usually [()]).
     Fills part (states, transitions, traces, classes, violations, samples).
-    Returns dict with depth reached, fixed_point flag, cap flags."""
+    Returns dict with depth reached, fixed_point flag, cap flags.
+
+    nomerge_depth: histories of at most that many operations are expanded even when their
+    canonical key was seen before, so every operation sequence of length nomerge_depth+1 is
+    executed.  The canonical key is the check's claim about what the future depends on; state
+    it does not capture (a cache inside the implementation) would otherwise never be followed
+    by a second operation when the first one leads back to a known state."""
     t0 = time.time()
     seen = set()
     if root_key is not None:
@@ -65,7 +71,7 @@ def explore(expand, roots, max_depth, part, root_key=None, chunk=None, cap_state
                         part.outcome(info)
                     if key is None:
                         continue
-                    if key in seen:
+                    if key in seen and depth + 1 > nomerge_depth:
                         continue
                     seen.add(key)
                     newh = hist + (op,)
@@ -92,6 +98,7 @@ def explore(expand, roots, max_depth, part, root_key=None, chunk=None, cap_state
     part.extra[label + '_depth'] = depth
     part.extra[label + '_fixed_point'] = int(fixed_point)
     part.extra[label + '_capped'] = int(capped)
+    part.extra[label + '_nomerge_depth'] = nomerge_depth
     return {
         'depth': depth, 'fixed_point': fixed_point, 'capped': capped,
         'levels': per_level, 'states': len(seen), 'unexpanded_frontier': len(frontier),
